@@ -196,7 +196,7 @@ CSS_KEYS = ["color", "font_size", "fontSize", "backgroundColor", "background_col
             "aB_cD", "a__b", "border_top_leftRadius", "zIndex", "margin_", "_webkit_x", "line_height", "é_x",
             # custom properties and vendor prefixes (only reachable with **): converted like every other name
             "--mainBg", "--brand_color", "--x", "-webkit-Box_x", "__x", "--", "a-B", "--Ü_x"]
-CSS_VALS = ["red", "12px", 0, 3, 1.5, -2, None, None, "", "a b", "url(x;y)", "10%", 1e21]
+CSS_VALS = ["red", "12px", 0, 3, 1.5, -2, None, None, "", "a b", "url(x;y)", "10%", 1e21, "red;", "0 ;", "';", "1px;;", " lead", "trail ", "a:b", "x\ny", True, False]
 
 
 def check_css(ctx, keys, vals, collapse):
